@@ -39,7 +39,7 @@ M = Monitor(
               "estimator.ReceptorEstimator.register_system_adaptation"],
     required_cells={"all": ["K=none", "K=scalar", "K=vector", "K=matrix", "baseline=zero", "baseline=scalar",
                             "baseline=vector", "domain=scalar", "domain=uniform", "domain=nonuniform",
-                            "Xrank=1", "Xrank=2", "Xrank=3", "adapt=background", "adapt=system"]},
+                            "Xrank=1", "Xrank=2", "Xrank=3", "adapt=background", "adapt=system", "units=small", "units=large"]},
     assumptions=["oracle integrates with explicit trapezoid weights (C01 oracle)",
                  "tolerance 1e-10 relative to the absolute-value magnitude of each sum"],
 )
@@ -51,17 +51,22 @@ def gen_case(rng, i):
     dkind, dom = gen.make_domain(rng)
     nd = int(rng.integers(20, 90)) if np.ndim(dom) == 0 else len(dom)
     filters, sources = gen.make_spectra(rng, m, n, dom, nd)
+    # physical units are arbitrary: a third of the cases use very small / large intensity units
+    unit = float(10 ** rng.uniform(-11, 4)) if i % 3 == 0 else 1.0
+    sources = sources * unit
     kk = gen.K_KINDS[rng.integers(4)]
     bk = gen.BASE_KINDS[rng.integers(3)]
     K = gen.make_K(rng, m, kk)
     base = gen.make_baseline(rng, m, bk, 1.0)
+    if base is not None and unit != 1.0:
+        base = base * unit
     xr = int(rng.integers(1, 4))
     xshape = {1: (n,), 2: (int(rng.integers(1, 6)), n), 3: (int(rng.integers(1, 3)), int(rng.integers(1, 4)), n)}[xr]
     X = rng.uniform(0, 3, xshape) * (rng.random(xshape) < 0.85)
     return {"filters": filters, "sources": sources, "domain": dom, "dkind": dkind, "K": K, "kkind": kk,
             "baseline": base, "basekind": bk, "X": X, "ctor": bool(rng.integers(2)),
             "signals": np.abs(rng.normal(0, 1, (int(rng.integers(1, 5)), nd))),
-            "background": np.abs(rng.normal(0.5, 0.3, nd)) + 0.05,
+            "background": (np.abs(rng.normal(0.5, 0.3, nd)) + 0.05) * unit, "unit": unit,
             "x_adapt": rng.uniform(0.1, 2, n), "add_baseline_kw": bool(rng.integers(2)),
             "lb": None if rng.integers(2) else np.zeros(n), "ub": None if rng.integers(2) else rng.uniform(1, 5, n)}
 
@@ -83,6 +88,8 @@ def chk_case(inp, c):
     K, base = inp["K"], inp["baseline"]
     c.cell(f"m={m}", f"n={n}", "K=" + inp["kkind"], "baseline=" + inp["basekind"], "domain=" + inp["dkind"],
            f"Xrank={inp['X'].ndim}")
+    if inp.get("unit", 1.0) != 1.0:
+        c.cell("units=small" if inp["unit"] < 1e-6 else ("units=large" if inp["unit"] > 1e2 else "units=scaled"))
     dom_arg = float(dom) if np.ndim(dom) == 0 else dom.copy()
     kw = {}
     if K is not None:
